@@ -208,7 +208,8 @@ fn gen(seed: u64, family: &str, tier: Tier) -> Case {
         // (newline-delimited JSON: a CSV sink records its unmappable columns inside the response it is handed,
         // which is C19's business)
         let mut o = gen_out_file(&mut r, &w);
-        o.format = crate::world::OutFormat::Json;
+        o.format = if r.chance(0.3) { crate::world::OutFormat::JsonArray } else { crate::world::OutFormat::Json };
+        o.preexisting = false;
         w.out = Some(o);
     }
     let nq = if r.chance(0.08) { 0 } else { r.range(1, 12) as usize };
@@ -433,6 +434,8 @@ impl Check for C12 {
         f[23] = "yens-known-loop";
         f[13] = "disk-full";
         f[31] = "disk-full";
+        f[19] = "cli";
+        f[37] = "cli";
         f.push("malformed"); // 41 entries: coprime with the worker count, so directed runs spread over all workers
         f
     }
@@ -443,12 +446,20 @@ impl Check for C12 {
         }
     }
     fn gen(&self, seed: u64, family: &str, tier: Tier) -> Case {
+        if family == "cli" {
+            // "the call returns so the remaining queries are served", through the command-line runner: rows that
+            // are no query at all (not JSON, not UTF-8, empty, cut off) between the queries of a chunked file
+            let mut c = super::c19::C19.gen(seed ^ 0xC12, "cli", tier);
+            c.check = "C12".into();
+            c.family = "cli".into();
+            return c;
+        }
         gen(seed, family, tier)
     }
     fn run(&self, case: &Case, fatal_fd: i32) -> ChildResult {
         let probe = StageProbe { batches: case.batches.clone(), parallelism: case.run_parallelism.unwrap_or(case.world.parallelism), out: Value::Null };
         let obs = execute(case, ExecOpts { reference: true, trace: false, log_clock: false, explore_build: false }, Box::new(probe), fatal_fd);
-        let (violations, mut reach, nontrivial) = judge(case, &obs);
+        let (violations, mut reach, nontrivial) = if case.family == "cli" { super::c19::judge(case, &obs) } else { judge(case, &obs) };
         reach.insert("preemptions".into(), obs.stats.preemptions);
         world_reach(&case.world, &mut reach);
         let sig = fnv64(&format!("{}|{}", serde_json::to_string(&case.batches).unwrap(), obs.stats.sched_hash));
